@@ -77,6 +77,8 @@ def sc_adversary(rng, n, t, quick):
     steps += _round_steps(0, "random", "r1", live=True)
     for i in bad:
         steps.append({"op": "stop", "node": i})
+    if bad:
+        steps.append({"op": "corrupt", "nodes": bad})   # they also answer sync requests with forged streams
     silenced = None
     if len(bad) < n - (t - 1):             # silence one more honest node so only t-1 honest partials exist
         silenced = t - 1
